@@ -76,3 +76,6 @@ def run(ctx):
     na_, ns_ = ptr_rules(ctx, prog)
     ctx.require(na_ >= 150 and ns_ >= 100, 'too few slot functions / chunk loops found (%d, %d)' % (na_, ns_))
 
+
+    from engine.run import borrow
+    borrow(ctx, 'C03', ['TABLE-INDEX'], 'a write call whose sample value steers a table subscript outside the table reads memory outside anything the caller supplied (G.711 float encoders)')
